@@ -33,8 +33,8 @@ def _corrupt(evs):
 
 def plans(tier):
     if tier == "quick":
-        return [("d2-unknown-ccs", 4, 1), ("d2-unknown-follow", 1, 2), ("d3-unknown-ccs-follow", 1, 6), ("d3-unknown-ccs-follow2", 1, 12)]
-    return [("d2-unknown-ccs", 32, 1), ("d2-unknown-follow", 3, 1), ("d3-unknown-ccs-follow", 2, 1), ("d3-unknown-ccs-follow2", 2, 2)]
+        return [("d2-unknown-ccs", 4, 1), ("d2-unknown-follow", 1, 2), ("d3-unknown-ccs-follow", 1, 6), ("d3-unknown-ccs-follow2", 1, 12), ("d3-unknown-pair", 2, 1)]
+    return [("d2-unknown-ccs", 32, 1), ("d2-unknown-follow", 3, 1), ("d3-unknown-ccs-follow", 2, 1), ("d3-unknown-ccs-follow2", 2, 2), ("d3-unknown-pair", 16, 1)]
 
 
 def accept(v):
@@ -44,8 +44,13 @@ def accept(v):
 def run(chk):
     rd = tlc.new_rundir("C28")
     try:
+        def on_problem(case, clause):
+            # stacking two selections of different (still unknown) sizes must be refused, as NumPy refuses it
+            if clause == "invalid-operation-did-not-raise":
+                chk.violation(case, "mismatched-unknown-shapes-accepted")
+
         progcheck.run_plans(chk, rd, plans(chk.tier), OBS, opts={"no_compute": True, "last_only": False}, selftest=_corrupt,
-                            accept_verdict=accept)
+                            accept_verdict=accept, on_problem=on_problem)
         chk.cov["exhaustive"] = True
         chk.cov["rule"] = ("every behaviour of ArrayProgram.tla that starts with MaskSelect (thresholds selecting none / some / all elements) or "
                            "Unknown (flatnonzero, argwhere, unique) over the preset sources x chunk grids, followed by ComputeChunkSizes and / or "
